@@ -29,6 +29,9 @@ Definition ones (r : orow) : list Q := map (fun o => match o with Some _ => 1 | 
 Definition prep (explicit : bool) (R : list orow) : list (list Q) :=
   map (if explicit then centre else ones) R.
 
+(* every rating multiplied by c (the magnitude of the rating data) *)
+Definition rscale (c : Q) (R : list orow) : list orow := map (map (option_map (Qmult c))) R.
+
 Fixpoint dot (a b : list Q) : Q :=
   match a, b with x :: a', y :: b' => x * y + dot a' b' | _, _ => 0 end.
 
